@@ -1028,8 +1028,27 @@ func (w *World) Summary(fn *ssa.Function) *Expr {
 	b := w.builderFor(fn)
 	nres := fn.Signature.Results().Len()
 	alts := make([][]*Expr, nres)
+	// a function with an error result is summarised by its success-capable returns: what a certainly-failing return
+	// hands back besides the error (zero values) is not what a caller that checks the error goes on with
+	failing := map[*ssa.Return]bool{}
+	if ErrIndex(fn) >= 0 {
+		ok := map[*ssa.Return]bool{}
+		for _, r := range w.SuccessReturns(fn) {
+			ok[r] = true
+		}
+		if len(ok) > 0 {
+			for _, r := range Returns(fn) {
+				if !ok[r] {
+					failing[r] = true
+				}
+			}
+		}
+	}
 	for _, blk := range fn.Blocks {
 		if r, ok := blk.Instrs[len(blk.Instrs)-1].(*ssa.Return); ok {
+			if failing[r] {
+				continue
+			}
 			for i, v := range r.Results {
 				alts[i] = append(alts[i], b.expr(v))
 			}
@@ -1320,24 +1339,47 @@ func (w *World) Inline(e *Expr) *Expr {
 // Expand inlines in-scope calls recursively up to depth.
 func (w *World) Expand(e *Expr, depth int) *Expr {
 	budget := maxExprNodes
-	return w.expand(e, depth, &budget)
+	return w.expand(e, depth, &budget, nil)
 }
 
-func (w *World) expand(e *Expr, depth int, budget *int) *Expr {
+// ExpandKeep is Expand with the calls of the functions accepted by keep left in place (the vocabulary a
+// rule is written in: the exported calculators and key builders of the types packages).
+func (w *World) ExpandKeep(e *Expr, depth int, keep func(*ssa.Function) bool) *Expr {
+	budget := maxExprNodes
+	return w.expand(e, depth, &budget, keep)
+}
+
+// TypesVocabulary: the exported functions and methods of the modules' types packages.
+func TypesVocabulary(f *ssa.Function) bool {
+	pk := FnPkg(f)
+	return pk != nil && strings.HasSuffix(pk.Path(), "/types") && ast.IsExported(f.Name())
+}
+
+func (w *World) expand(e *Expr, depth int, budget *int, keep func(*ssa.Function) bool) *Expr {
 	if e == nil || *budget <= 0 {
 		return e
 	}
 	*budget--
+	if e.Op == "call" && e.Callee != nil && depth > 0 && keep != nil && keep(e.Callee) {
+		// a vocabulary call stays; its arguments are expanded
+		ne := *e
+		ne.str = ""
+		ne.Args = make([]*Expr, len(e.Args))
+		for i, a := range e.Args {
+			ne.Args[i] = w.expand(a, depth, budget, keep)
+		}
+		return &ne
+	}
 	if e.Op == "call" && e.Callee != nil && depth > 0 {
 		// expand arguments first
 		ne := *e
 		ne.str = ""
 		ne.Args = make([]*Expr, len(e.Args))
 		for i, a := range e.Args {
-			ne.Args[i] = w.expand(a, depth, budget)
+			ne.Args[i] = w.expand(a, depth, budget, keep)
 		}
 		if in := w.Inline(&ne); in != nil && !opaque(in) {
-			return w.expand(in, depth-1, budget)
+			return w.expand(in, depth-1, budget, keep)
 		}
 		return &ne
 	}
@@ -1350,7 +1392,7 @@ func (w *World) expand(e *Expr, depth int, budget *int) *Expr {
 		k.str = ""
 		k.Args = make([]*Expr, len(e.Args[0].Args))
 		for i, a := range e.Args[0].Args {
-			k.Args[i] = w.expand(a, depth, budget)
+			k.Args[i] = w.expand(a, depth, budget, keep)
 		}
 		ne := *e
 		ne.str = ""
@@ -1360,7 +1402,7 @@ func (w *World) expand(e *Expr, depth int, budget *int) *Expr {
 	changed := false
 	args := make([]*Expr, len(e.Args))
 	for i, a := range e.Args {
-		args[i] = w.expand(a, depth, budget)
+		args[i] = w.expand(a, depth, budget, keep)
 		if args[i] != a {
 			changed = true
 		}
